@@ -9,7 +9,7 @@ from harness import model, proto_impl as PI, vloop
 from harness.common import Prop
 
 
-async def _run(ops, talking, late_fail=False, close_stall=0):
+async def _run(ops, talking, late_fail=False, close_stall=0, write_fault=None):
     log, transports = [], []
     script = []
     for op in ops:
@@ -141,6 +141,10 @@ async def _run(ops, talking, late_fail=False, close_stall=0):
         feeder = asyncio.ensure_future(feed())
     for _, w in transports:
         w.close_delay = close_stall          # how long the transport takes to confirm that it is closed (a stalled peer: never)
+        if write_fault == "oserror":
+            w.fail_on = w.writes + 1         # from now on the next write fails (connection reset not noticed yet)
+        elif write_fault == "stall":
+            w.drain_delay = 10 ** 6          # the peer stopped reading: every further write stalls until the write time-out
     t0 = loop.time()
     returned = True
     me = asyncio.current_task()
@@ -170,7 +174,7 @@ class C12(Prop):
     rule = ("histories over: connect (0..2 failing opens), frames creating the ecoMAX device, mixers 0 and 4 and thermostat 0 (overlapping "
             "index), an ecoSTER device, undecodable frames; queued requests; pending tasks owned by the device / a mixer / a thermostat / "
             "set_nowait; connection loss (also while a consumer is still creating the device entry, held by a slow user subscriber that returns before or only after close()) with a reconnect chain that succeeds or keeps failing; silence; close() issued at the end of every "
-            "prefix, with a silent or a talking controller, on transports that confirm closing at once, after 2 / 9 / 11 s, or never.  Observed: close() returns, its virtual duration, tasks still pending afterwards "
+            "prefix, with a silent or a talking controller, on transports that confirm closing at once, after 2 / 9 / 11 s, or never, and on which every write from now on fails (OSError) or stalls until the write time-out.  Observed: close() returns, its virtual duration, tasks still pending afterwards "
             "(asyncio.all_tasks), transports closed.  Non-trivial = something is queued, pending or disconnected when close() is issued; "
             "distinct by (history, talking).")
     assumptions = ["the state close() is issued in (connected, queue sizes, pending tasks per owner) is read from the implementation just "
@@ -202,7 +206,8 @@ class C12(Prop):
             # close() at every point of the history
             for cut in range(1, len(ops) + 1):
                 cases.append({"kind": "prefix", "ops": ops[:cut], "talking": rng.random() < 0.3, "late_fail": rng.random() < 0.5,
-                              "close_stall": rng.choice([0, 0, 0, 2, 9, 11, 10 ** 6])})
+                              "close_stall": rng.choice([0, 0, 0, 2, 9, 11, 10 ** 6]),
+                              "write_fault": rng.choice([None, None, None, "oserror", "stall"])})
         # close() issued in the very loop iteration in which one reconnect attempt hands over to the next
         # (the finished task is still registered when cancel_tasks() runs)
         # sub-devices that come and go in the sensor data: tasks started on a mixer / thermostat that a later message no longer lists
@@ -225,11 +230,11 @@ class C12(Prop):
 
     def run_impl(self, c):
         try:
-            r = vloop.run(_run, c["ops"], c["talking"], c.get("late_fail", False), c.get("close_stall", 0))
+            r = vloop.run(_run, c["ops"], c["talking"], c.get("late_fail", False), c.get("close_stall", 0), c.get("write_fault"))
             # which task cancel_tasks() meets first depends on the addresses of the task objects: repeat the
             # history and keep the worst outcome
             for _ in range(c.get("repeat", 1) - 1):
-                r2 = vloop.run(_run, c["ops"], c["talking"], c.get("late_fail", False), c.get("close_stall", 0))
+                r2 = vloop.run(_run, c["ops"], c["talking"], c.get("late_fail", False), c.get("close_stall", 0), c.get("write_fault"))
                 if (not r2["result"][0], r2["result"][2], not r2["result"][3]) > (not r["result"][0], r["result"][2], not r["result"][3]):
                     r = r2
         except vloop.Deadlock:
